@@ -268,7 +268,7 @@ let () =
               let after = xstep ops fixes !cur (XDetach (n_of_int kk)) in
               Printf.printf "%d %d x%d %s\n" k j j' (state_str after);
               (match trace_of after kk dir with Some w -> Printf.printf "%d ORACLE FAIL model-detach-trace op#%d x%d c%d %s\n" k j j' kk w | None -> ());
-              as_if_never j kk after;
+              if int_of_n (priv_get (xs_priv ops !xs) (n_of_int kk)) = 0 then as_if_never j kk after;
               if j' < n then begin
                 let c = List.nth subs j' in
                 let before = foreign_view !cur kk in
@@ -310,7 +310,7 @@ let () =
            | _ -> ());
           if valid && code = "d" then begin
             (match trace_of !xs kk dir with Some w -> Printf.printf "%d ORACLE FAIL model-detach-trace op#%d c%d %s\n" k j kk w | None -> ());
-            as_if_never j kk !xs
+            if unpriv then as_if_never j kk !xs     (* a privileged session's kicks are visible effects by design *)
           end;
           xs := xclear ops !xs
         end
